@@ -11,9 +11,11 @@
 (*    statements (README "Multiple Writers", property C02), without any    *)
 (*    register.  Ideal is the oracle of C01/C02/C15.                       *)
 (*                                                                         *)
-(* A statement is [kind, key, cols, wt] with kind in {"ins","upd","del"},  *)
+(* A statement is [kind, key, cols, wt, n] with kind in {"ins","upd","del"},*)
 (* cols a function from the ASSIGNED column names to values, wt its write  *)
-(* time.  Times are integers; NoTime is below every time.                  *)
+(* time, n a sequence number that orders the statements of one transaction *)
+(* (which share one write time).  Times are integers; NoTime is below      *)
+(* every time.                                                             *)
 (***************************************************************************)
 EXTENDS Integers, FiniteSets, Sequences
 
@@ -41,8 +43,8 @@ Reg(mod, st, live, ct, cv) ==
 EmptyRow == Reg(NoTime, NoTime, TRUE, NoCT, NoCV)   \* &v1proto.Row{} at the zero time
 
 (* MergeRows(t1,r1,t2,r2,outTime), absolute times.  r1 is the "first"      *)
-(* argument; ties on the status time go to r2, ties on a column time go to *)
-(* r1 ("default:" branch).                                                 *)
+(* argument; ties on the status time and on a column time go to r2 (the   *)
+(* later statement of a transaction, whose statements share one time).    *)
 MergeRowsAB(r1, r2, out) ==
   LET r2wins == ~(r1.st > r2.st)
       live   == IF r2wins THEN r2.live ELSE r1.live
@@ -54,7 +56,7 @@ MergeRowsAB(r1, r2, out) ==
                  CASE t1 = NoTime /\ t2 = NoTime -> 0
                    [] t1 = NoTime -> 2
                    [] t2 = NoTime -> 1
-                   [] t1 < t2     -> 2
+                   [] t1 <= t2    -> 2
                    [] OTHER       -> 1
       ctOf(c) == LET p == pick(c) IN
                  IF p = 0 THEN NoTime
@@ -80,7 +82,7 @@ MergeRowsKeep(r1, r2, out) ==
                  CASE t1 = NoTime /\ t2 = NoTime -> 0
                    [] t1 = NoTime -> 2
                    [] t2 = NoTime -> 1
-                   [] t1 < t2     -> 2
+                   [] t1 <= t2    -> 2
                    [] OTHER       -> 1
       ctOf(c) == LET p == pick(c) IN
                  IF p = 0 THEN NoTime
@@ -151,7 +153,7 @@ ApplyLocal(mode, e, s) ==
                 [] OTHER            -> MergeJoin(old, d)
       put(x) == IF mode = "asbuilt" THEN Gate(mode, e, x, s.wt) ELSE x
   IN CASE s.kind = "ins" ->
-            IF ok /\ (old.live \/ ~(old.st < s.wt)) THEN [e |-> e, out |-> "pk"]
+            IF ok /\ (old.live \/ old.st > s.wt) THEN [e |-> e, out |-> "pk"]
             ELSE [e |-> put(mrg), out |-> "ok"]
        [] OTHER ->
             IF ~ok \/ ~old.live THEN [e |-> e, out |-> "noop"]
@@ -169,18 +171,22 @@ IsVisible(e) == ~e.abs /\ e.live
 (* Status: the latest INSERT or DELETE decides; a live row's column holds  *)
 (* the value of the greatest-wt statement, among the statements at or      *)
 (* after that INSERT, that assigned the column; else NULL.                 *)
+(* Statements are ordered by write time, and - for the statements of one   *)
+(* transaction, which share a write time - by their sequence number n.     *)
+LaterEq(s1, s2) == s1.wt > s2.wt \/ (s1.wt = s2.wt /\ s1.n >= s2.n)
+Latest(A) == CHOOSE s \in A : \A s2 \in A : LaterEq(s, s2)
+
 IdealLive(S) ==
   LET ID == {s \in S : s.kind \in {"ins", "del"}} IN
   /\ ID # {}
-  /\ \E m \in ID : (\A s2 \in ID : s2.wt <= m.wt) /\ m.kind = "ins"
+  /\ Latest(ID).kind = "ins"
 
 IdealRow(S) ==
   LET ID == {s \in S : s.kind \in {"ins", "del"}}
-      m  == CHOOSE s \in ID : (\A s2 \in ID : s2.wt <= s.wt) /\ s.kind = "ins"
+      m  == Latest(ID)
   IN [c \in Cols |->
-        LET A == {s \in S : s.wt >= m.wt /\ s.kind \in {"ins", "upd"} /\ c \in Assigned(s)} IN
-        IF A = {} THEN NullV
-        ELSE (CHOOSE s \in A : \A s2 \in A : s2.wt <= s.wt).cols[c]]
+        LET A == {s \in S : LaterEq(s, m) /\ s.kind \in {"ins", "upd"} /\ c \in Assigned(s)} IN
+        IF A = {} THEN NullV ELSE Latest(A).cols[c]]
 
 (* The whole table: the set of <<key, row>> pairs of the live keys.        *)
 IdealTable(S) ==
